@@ -2205,13 +2205,20 @@ func (x *ctx) siteAssertions(st *state, fr *frame, b *ssa.BasicBlock, in *ssa.Ca
 		name = name[:j] // instantiated generic: Set[K V]
 	}
 	cls := x.con.Sites[name]
-	if len(cls) == 0 {
-		return
-	}
 	if x.siteHit == nil {
 		x.siteHit = map[string]bool{}
 	}
-	x.siteHit[name] = true
+	if len(cls) > 0 {
+		x.siteHit[name] = true
+	}
+	// `site <closure>.<callee>:` restricts the assertion to the calls inside that closure of the verified function
+	if q := fr.fn.Name() + "." + name; len(x.con.Sites[q]) > 0 {
+		cls = append(append([]*Clause(nil), cls...), x.con.Sites[q]...)
+		x.siteHit[q] = true
+	}
+	if len(cls) == 0 {
+		return
+	}
 	penv := func(n string, t types.Type) (val, bool) { v, ok := x.params[n]; return v, ok }
 	lenv := func(n string, t types.Type) (val, bool) {
 		if v, ok := x.localByName(st, fr, b, n); ok {
